@@ -190,3 +190,13 @@ package state
 
 //@ func Session.SetTunMTU
 //@   modifies s.mtu.v
+
+// Storage bookkeeping for known routers: assumed not to touch frames, links, tables or the configuration.
+//@ func State.AddPublicRouterInfo
+//@   option trusted
+//@   modifies nothing
+//@   havoc F|storage., MP|
+//@ func State.MarkRouterOffline
+//@   option trusted
+//@   modifies nothing
+//@   havoc F|storage., MP|
